@@ -117,11 +117,19 @@ CHECKS = {
                "Seeded search over chunk sequences, part completion orders and part/complete failures against the real ObjectWriter; "
                "object equals the concatenation after shutdown, nothing visible before, nothing left after abort/drop/failure.",
                required_probes=["shutdown-ok", "multipart"]),
+    "C41": chk([{"engine": "e4", "opts": [], "weight": 1, "minimise": False}],
+               "one run = a random batch sequence and memory limit (0 .. unlimited, so the spill goes to a real temp file or stays in memory), "
+               "one writer and 1-3 readers opened before/during/after writing (some twice, some dropped early); the simulator interleaves the "
+               "parties at operation boundaries (write / finish / open / next / drop) in seeded order, a blocked `next` stays pending while others "
+               "run; plus one chunk_stream / chunk_concat_stream case per run; distinct = distinct step interleavings; non-trivial = >= 1 batch and >= 1 reader",
+               "Seeded search over writer/reader interleavings of the replay spill; every reader that reaches the end saw exactly the written batches in order; "
+               "after finish every reader completes (bounded liveness); the chunker part is input-driven (one generated case per run).",
+               required_probes=["reader-complete", "spilled-to-disk"]),
     "C33": chk([e2(1)], E2_RULE, "Partial claim: latest-version discovery under arbitrary listing order and staging files, via the commit-protocol races (fresh reader resolves the highest committed version)."),
 }
 
 # properties whose checks are registered in MANIFEST.json (clean on the unchanged tree)
-REGISTERED = ["C01", "C02", "C03", "C04", "C05", "C06", "C07", "C10", "C11", "C12", "C13", "C14", "C19", "C20", "C24", "C30", "C31", "C33"]
+REGISTERED = ["C01", "C02", "C03", "C04", "C05", "C06", "C07", "C10", "C11", "C12", "C13", "C14", "C19", "C20", "C24", "C30", "C31", "C33", "C41"]
 
 PURE = "pure function of its inputs: no task, timer, storage call, clock, fault or second party for a scheduler or fault injector to decide (DESIGN.md section 6)"
 NOT_APPLICABLE = {
